@@ -61,7 +61,7 @@ None == [none |-> TRUE]
 Admin    == "admin"
 Tokens   == {"t1"}            \* tokens the server may issue; "tX" is never issued
 TTL      == 1
-MaxClock == 2
+MaxClock == 1
 
 Methods   == {"GET", "POST", "PUT", "DELETE"}
 Mutating  == {"POST", "PUT", "DELETE"}             \* control.go modifiesData
@@ -220,8 +220,12 @@ Bad(q, o) == {n \in {"NoUnauthenticatedHandler", "MutatingNeedsMethodAndJSON",
                   [] n = "AuthServed"                 -> ~P_AuthServed(q, o)}
 
 \* ------------------------------------------------------------- behaviour
-Requests == [method : Methods, ctype : CTypes, body : BOOLEAN, cookie : Cookies,
-             basic : Basics, spelling : Spellings]
+\* The shapes explored.  For the two spellings that ServeMux answers itself
+\* (301 to the cleaned path, before any route is consulted) content type and
+\* body are not varied.
+Shape(q) == q.spelling \in {"dotSegment", "doubleSlash"} => q.ctype = "none" /\ ~q.body
+Requests == {q \in [method : Methods, ctype : CTypes, body : BOOLEAN, cookie : Cookies,
+                    basic : Basics, spelling : Spellings] : Shape(q)}
 
 Init == /\ last = None /\ focus = None
         /\ clock = 0
@@ -266,15 +270,18 @@ Focus(r) == /\ focus = None /\ focus' = r
             /\ UNCHANGED <<firstRun, users, sessions, clock, last>>
 
 \* Vector generation: one line per (state, route, target, method, spelling)
-\* carrying the verdict table over ctype x body x cookie x basic.  The cookie
-\* is reported by class; the classes present depend on the state.
+\* carrying the verdict table over ctype x body x cookie x basic, one row
+\* <<ctype, body, cookie class, basic, dispatched to, site of the serving
+\* registration, admissible outcomes, violated requirements>> per request.  The
+\* cookie is reported by class; the classes present depend on the state.
 Table(r, t, m, sp) ==
-    [x \in {<<ct, b, ck, ba>> : ct \in CTypes, b \in BOOLEAN, ck \in Cookies, ba \in Basics} |->
+    [x \in {y \in {<<ct, b, ck, ba>> : ct \in CTypes, b \in BOOLEAN, ck \in Cookies, ba \in Basics} :
+                Shape([ctype |-> y[1], body |-> y[2], spelling |-> sp])} |->
         LET q == [method |-> m, ctype |-> x[1], body |-> x[2], cookie |-> x[3], basic |-> x[4],
                   spelling |-> sp]
-        IN {[ctype |-> x[1], body |-> x[2], cookie |-> CookieClass(x[3]), basic |-> x[4],
-             site |-> o.by.site, to |-> (IF o.e.disp = "route" THEN o.e.pat ELSE o.e.disp),
-             outs |-> o.outs, bad |-> Bad(q, o)] : o \in Outcomes(r, t, q)}]
+        IN {<<x[1], x[2], CookieClass(x[3]), x[4],
+              (IF o.e.disp = "route" THEN o.e.pat ELSE o.e.disp), o.by.site, o.outs, Bad(q, o)>> :
+                o \in Outcomes(r, t, q)}]
 
 Emit(r, t, m, sp) ==
     LET tab == Table(r, t, m, sp) IN
